@@ -80,8 +80,10 @@ CHECKS = {
             "scanner.py, grammar/parser.py, unescape.py and PestGrammarError._error_context and is tied to them by exact correspondence "
             "(accept / error kind / error start / tokens / error context) on the run's texts; the direct oracle calls Parser.from_grammar "
             "with and without the optimizer on every text and accepts only a Parser or PestGrammarError whose str() renders and whose line "
-            "and column exist. Outside the model: CPython's recursion limit and memory (two open findings, replayed on every run), the "
-            "optimizer's own exceptions on accepted grammars (searched, not proved).",
+            "and column exist; for 16 nesting shapes the first depth that no longer loads is found by bisection and every depth within 24 of it "
+            "is loaded (an exception that escapes only when the recursion limit is hit inside one particular frame). Outside the model: "
+            "CPython's recursion limit and memory (open findings, replayed on every run; the copying by the unroll pass is stated for "
+            "every size in Props/C11Blowup.lean), the optimizer's own exceptions on accepted grammars (searched, not proved).",
             "Lean 4 totality proof (every outcome classified, loop bounds never binding) + exact differential correspondence"),
     "C12": ("charset", "proof",
             "Theorems for all code points and all lists of alternatives (no enumeration): the regenerated ASCII tables denote pest's sets "
